@@ -102,7 +102,8 @@ func sliceFor(infos []assertInfo, prefix int, goalSyms []string) []bool {
 	if limit < 25 {
 		limit = 25
 	}
-	hub := func(s string) bool { return (freq[s] > limit || strings.HasPrefix(s, "$alloc")) && !isGuardSym(s) }
+	_ = limit
+	hub := func(s string) bool { return strings.HasPrefix(s, "$alloc") || strings.HasPrefix(s, "p_") }
 	cone := map[string]bool{}
 	for _, s := range goalSyms {
 		cone[s] = true
